@@ -34,6 +34,9 @@ type Obligation struct {
 	Output string
 	File   string
 	Model  string
+	RefuteModel  string
+	RefuteSolver string
+	Disagree     bool
 	lemmaIdx int
 }
 
